@@ -1256,7 +1256,15 @@ func (sed *shardEventDelegate) NotifyLeave(node *memberlist.Node) {
 	if sed.manager != nil && sed.manager.ml != nil && sed.manager.memberlistConfig != nil {
 		go func() {
 			sed.manager.mlMutex.RLock()
-			numMembers := sed.manager.ml.NumMembers()
+			sed.manager.mutex.RLock()
+			ml := sed.manager.ml
+			sed.manager.mutex.RUnlock()
+			if ml == nil {
+				// the manager shut down in the meantime (its own Leave also ends up here)
+				sed.manager.mlMutex.RUnlock()
+				return
+			}
+			numMembers := ml.NumMembers()
 			sed.manager.mlMutex.RUnlock()
 			if numMembers == 1 && len(sed.manager.memberlistConfig.JoinAddrs) > 0 {
 				sed.logger.Info("Node is now isolated, restarting join loop",
